@@ -34,6 +34,9 @@ func resultType(c *ssa.CallCommon) types.Type {
 
 // calleeName: display name used for counters, atcall matching and externals.
 func calleeName(c *ssa.CallCommon, fnv Val) string {
+	if b, ok := c.Value.(*ssa.Builtin); ok {
+		return "builtin " + b.Name()
+	}
 	if c.IsInvoke() {
 		return "(" + typeKey(c.Value.Type()) + ")." + c.Method.Name()
 	}
@@ -52,10 +55,19 @@ func calleeName(c *ssa.CallCommon, fnv Val) string {
 	return "fnvalue:" + typeKey(c.Value.Type())
 }
 
-func (ex *Exec) applyCall(st *State, fr *Frame, instr ssa.Instruction, c *ssa.CallCommon, fnv Val, args []Val, k CallK) {
+func (ex *Exec) applyCall(st *State, fr *Frame, instr ssa.Instruction, c *ssa.CallCommon, fnv Val, args []Val, k0 CallK) {
 	resT := resultType(c)
+	// remember the heap right after this call returns (for aftercall(...) in specs)
+	k := func(st2 *State, fr2 *Frame, ret Val) {
+		if fr2.callSnaps == nil {
+			fr2.callSnaps = map[string]map[string]string{}
+		}
+		fr2.callSnaps[calleeName(c, fnv)] = st2.snapshot()
+		k0(st2, fr2, ret)
+	}
 	// builtins
 	if b, ok := c.Value.(*ssa.Builtin); ok {
+		ex.atCall(st, fr, instr, "builtin "+b.Name(), args)
 		k(st, fr, ex.builtin(st, fr, instr, b, args, resT))
 		return
 	}
